@@ -322,9 +322,17 @@ def python_arithmetic(prog: Program, rep, RID: str, funcs, why: str) -> int:
                         any(_is_caller_scalar_read(x) for x in ast.walk(st.value)) and not any(isinstance(x, ast.Call) and (dotted(x.func) or "") in _CONVERTERS | {"self.weight_type"}
                                                                                                for x in ast.walk(st.value) if x is not st.value):
                     derived.add(norm(st.targets[0]))
+        # plain local aliases of a raw read (`value = data[flow_attr]`)
+        for st in ast.walk(f.node):
+            if isinstance(st, ast.Assign) and len(st.targets) == 1 and isinstance(st.targets[0], ast.Name) and _is_caller_scalar_read(st.value):
+                derived.add(st.targets[0].id)
         for node in ast.walk(f.node):
             if not _is_caller_scalar_read(node, derived):
                 continue
+            if isinstance(node, ast.Name) and not isinstance(node.ctx, ast.Load):
+                continue
+            if isinstance(par.get(id(node)), ast.Assign) and par[id(node)].value is node and isinstance(par[id(node)].targets[0], ast.Name):
+                continue      # the alias definition itself
             if norm(node) in derived and isinstance(par.get(id(node)), ast.Assign) and node in par[id(node)].targets:
                 continue
             cur, kind, arith = node, None, None
@@ -361,6 +369,15 @@ def python_arithmetic(prog: Program, rep, RID: str, funcs, why: str) -> int:
                     break
                 cur = p
             if kind == "raw":
+                # rows / objectives handed to the solver are built by the solver's expression classes, not by numpy arithmetic
+                up, in_solver = arith, False
+                while id(up) in par:
+                    up = par[id(up)]
+                    if isinstance(up, ast.Call) and isinstance(up.func, ast.Attribute) and up.func.attr in ("add_constraint", "set_objective", "quicksum", "add_linear_constraint"):
+                        in_solver = True
+                        break
+                if in_solver:
+                    continue
                 n += 1
                 rep.violation(RID, f"{f.qualname}:python-numbers:{norm(arith)[:50]}", f"`{norm(arith)[:100]}` computes with the caller's scalar `{norm(node)}` as it comes: "
                               f"a fixed-width numpy integer wraps around silently (np.uint8 200 + 100 = 44, np.uint32 6 - 10 = 4294967292) - {why}", f.loc(arith))
